@@ -10,10 +10,17 @@
    (syscfg: command, working directory, shell flag, input files, tracked variable names, the
    director's environment and infra_env, overrides) to the ingredient maps that executor.py hands
    to StepHash.from_inp (site_inp_cfg / site_full_cfg, regenerated from executor.py, step.py into
-   gen/GenHashSites.v) is inside the model. *)
+   gen/GenHashSites.v) is inside the model.
+
+   Third part ("skip decision", end to end): compute_inp_hashes / compute_out_hashes refreshing the
+   recorded file hashes against the disk, the guard that keeps a changed / vanished / missing input
+   away from from_inp, the two digest comparisons of Executor.try_skip_job (gen/GenHashSkip.v) and
+   the stored form of the hashes (gen/GenHashJson.v: cattrs' JSON converter, Base85). *)
 From Coq Require Import List NArith Bool Permutation.
 From SV Require Import lib.Bytes lib.KeySort model.HashTypes gen.GenHash model.Hash proofs.HashProofs
-  model.HashSiteTypes gen.GenHashSites model.HashSites proofs.HashSitesProofs.
+  model.HashSiteTypes gen.GenHashSites model.HashSites proofs.HashSitesProofs
+  model.HashSkipTypes gen.GenHashSkip model.HashSkip proofs.HashSkipProofs
+  lib.Base85 model.HashJsonTypes gen.GenHashJson model.HashJson proofs.HashJsonProofs.
 Import ListNotations.
 Open Scope N_scope.
 
@@ -307,6 +314,117 @@ Theorem C13_site_differ_overrides :
     inp_preimage (site_inp_cfg s1) <> inp_preimage (site_inp_cfg s2).
 Proof. exact differ_overrides. Qed.
 
+(* ---------- the skip decision, end to end (H is SHA-256) ----------
+   full_step_hash: what Executor._compute_full_step_hash records after the command of the step ran
+   (the configuration rs it was computed from: ingredients s0, recorded file hashes io0 / oo0
+   refreshed against the disk d0); try_skip: Executor.try_skip_job on the recorded hash, the
+   ingredients s, the recorded file hashes io / oo and the disk d now.
+   The input map that reaches StepHash.from_inp is the recorded one and holds no unknown hash
+   (a changed, vanished or missing input is a message or a ConsistencyError): the hypothesis
+   sys_inputs_known of C13_site_inp_injective_known_inputs is discharged. *)
+Theorem C13_inputs_reaching_from_inp_are_recorded_and_known :
+  forall (H : str -> str) (d : disk) (olds : list (str * fhash)) (inps : list (str * fsig)),
+    observed_inps H d olds = Some inps ->
+    inps = sigs (sort_keys olds)
+    /\ forallb (fun e => negb (fs_is_unknown (snd e))) inps = true.
+Proof. exact observed_inps_recorded_and_known. Qed.
+
+Theorem C13_changed_input_never_reaches_from_inp :
+  forall (H : str -> str) (d : disk) (olds : list (str * fhash)) (e : str * fhash),
+    In e (sort_keys olds) -> fh_eqb (refreshed H (snd e) (d (fst e))) (snd e) = false ->
+    observed_inps H d olds = None.
+Proof. exact changed_input_is_reported. Qed.
+
+(* The full statement for the skip decision: "unchanged" only for the recorded configuration,
+   modulo SHA-256 collisions on the two pairs of pre-images compared.  False today for the output
+   part (D2, C13_out_full_refuted). *)
+Definition C13_skip_full : Prop :=
+  forall (H : str -> str) (s0 : syscfg) (d0 : disk) (io0 oo0 : list (str * fhash)) (rec : shash) (rs : syscfg),
+    full_step_hash H s0 d0 io0 oo0 = Some (rec, rs) ->
+    forall (s : syscfg) (d : disk) (io oo : list (str * fhash)) (h : shash),
+      try_skip H rec s d io oo = Some (true, h) ->
+      forall inps, observed_inps H d io = Some inps ->
+      let now := with_outs (with_inps s inps) (observed_outs H d oo) in
+      sys_wf rs = true -> sys_wf now = true ->
+      wf_files (sys_outs rs) = true -> wf_files (sys_outs now) = true ->
+      no_collision H (inp_preimage (site_inp_cfg rs)) (inp_preimage (site_inp_cfg now)) ->
+      no_collision H (out_preimage (sys_outs rs)) (out_preimage (sys_outs now)) ->
+      sys_equiv rs now /\ sys_out_equiv rs now.
+
+(* Proved: the same with the residue of D2 for the OUTPUT digest (no content digest of an output,
+   recorded or current, starts with the bytes 75 00 01).  The INPUT part needs no extra hypothesis:
+   label (command, working directory), shell flag, every input's (digest, mode, size), the set of
+   tracked variables and the definedness + value of each, and every override are the recorded
+   ones.  kw_ovr_is_str = false is computed from gen/GenHash.v (holds today: eq_refl, see the
+   Example below). *)
+Theorem C13_skip_unchanged_sound_partial :
+  kw_ovr_is_str = false ->
+  forall (H : str -> str) (s0 : syscfg) (d0 : disk) (io0 oo0 : list (str * fhash)) (rec : shash) (rs : syscfg),
+    full_step_hash H s0 d0 io0 oo0 = Some (rec, rs) ->
+    forall (s : syscfg) (d : disk) (io oo : list (str * fhash)) (h : shash),
+      try_skip H rec s d io oo = Some (true, h) ->
+      forall inps, observed_inps H d io = Some inps ->
+      let now := with_outs (with_inps s inps) (observed_outs H d oo) in
+      sys_wf rs = true -> sys_wf now = true ->
+      wf_files (sys_outs rs) = true -> wf_files (sys_outs now) = true ->
+      digests_ok Lookahead (sys_outs rs) = true -> digests_ok Lookahead (sys_outs now) = true ->
+      no_collision H (inp_preimage (site_inp_cfg rs)) (inp_preimage (site_inp_cfg now)) ->
+      no_collision H (out_preimage (sys_outs rs)) (out_preimage (sys_outs now)) ->
+      sys_equiv rs now /\ sys_out_equiv rs now /\ h = rec.
+Proof. intros K H. exact (try_skip_unchanged_sound H K). Qed.
+
+(* the input half alone is full: no hypothesis about digests *)
+Theorem C13_skip_inputs_sound :
+  kw_ovr_is_str = false ->
+  forall (H : str -> str) (s0 : syscfg) (d0 : disk) (io0 oo0 : list (str * fhash)) (rec : shash) (rs : syscfg),
+    full_step_hash H s0 d0 io0 oo0 = Some (rec, rs) ->
+    forall (s : syscfg) (d : disk) (io oo : list (str * fhash)) (b : bool) (h : shash) inps,
+      observed_inps H d io = Some inps ->
+      try_skip H rec s d io oo = Some (b, h) ->
+      sh_inp h = sh_inp rec ->
+      sys_wf rs = true -> sys_wf (with_inps s inps) = true ->
+      no_collision H (inp_preimage (site_inp_cfg rs)) (inp_preimage (site_inp_cfg (with_inps s inps))) ->
+      sys_equiv rs (with_inps s inps).
+Proof. intros K H. exact (try_skip_inputs_sound H K). Qed.
+
+(* conversely an unchanged configuration is skipped, whatever the supply order *)
+Theorem C13_skip_unchanged_complete :
+  forall (H : str -> str) (s0 : syscfg) (d0 : disk) (io0 oo0 : list (str * fhash)) (rec : shash) (rs : syscfg),
+    full_step_hash H s0 d0 io0 oo0 = Some (rec, rs) ->
+    forall (s : syscfg) (d : disk) (io oo : list (str * fhash)) inps,
+      observed_inps H d io = Some inps ->
+      let now := with_outs (with_inps s inps) (observed_outs H d oo) in
+      sys_wf rs = true -> nodup_keys (sys_outs rs) = true ->
+      sys_equiv rs now -> sys_out_equiv rs now ->
+      try_skip H rec s d io oo = Some (true, rec).
+Proof. exact try_skip_unchanged_complete. Qed.
+
+(* ---------- stored hashes survive a save and a load ----------
+   FileHash.to_json / from_json and StepHash.to_json / from_json through cattrs' JSON converter
+   (bytes as Base85, field names and order generated from the attrs classes); the text layer
+   json.dumps / json.loads is exercised by the harness.  digest_json_ok: a digest is a byte string
+   of a whole number of 32-bit words (every SHA-256 value) or b"u"; fh_canonical: an unknown hash
+   is FileHash.unknown() (to_json stores NULL for it). *)
+Theorem C13_base85_round_trip :
+  forall (alphabet : str) (n : nat) (b : str),
+    alphabet_ok alphabet = true -> length b = (4 * n)%nat -> is_bytes b = true ->
+    b85_decode alphabet (b85_encode alphabet b) = Some b.
+Proof. exact b85_round_trip. Qed.
+
+Theorem C13_filehash_json_round_trip :
+  forall h : fhash, fh_json_ok h = true -> fh_canonical h = true -> fh_from_json (fh_to_json h) = Some h.
+Proof. exact fh_json_round_trip. Qed.
+
+Theorem C13_stephash_json_round_trip :
+  forall x : stephash, sx_json_ok x = true -> sx_from_json (Some (sx_to_json x)) = Some (Some x).
+Proof. exact sx_json_round_trip. Qed.
+
+(* ... so the digests try_skip_job compares are the recorded ones *)
+Theorem C13_stored_digests_survive :
+  forall x y : stephash,
+    sx_json_ok x = true -> sx_from_json (Some (sx_to_json x)) = Some (Some y) -> shash_of y = shash_of x.
+Proof. exact stored_digests_survive. Qed.
+
 (* ---------- non-vacuity ---------- *)
 (* label "é x  # wd=d/", shell, two inputs (non-ASCII path, one 32-byte digest with zero bytes
    and marker look-alikes inside, mode 0o100644, sizes up to 2^40), one defined and one undefined
@@ -372,3 +490,46 @@ Proof.
   - vm_compute. left. reflexivity.
   - vm_compute. discriminate.
 Qed.
+
+(* skip decision: the premise kw_ovr_is_str = false holds on the current tree, and the theorem is
+   not vacuous: with H := the identity on pre-images (collision-free), a step recorded with the
+   input a.c present and then checked again with the same disk is skipped; with FLAGS undefined
+   instead of empty it is not. *)
+Example C13_example_premise : kw_ovr_is_str = false.
+Proof. vm_compute. reflexivity. Qed.
+
+Definition ex_H : str -> str := fun x => x.
+Definition ex_old : fhash := mk_fhash ex_digest2 33261 7 0 42.
+Definition ex_disk : disk :=
+  fun p => if str_eqb p [97;46;99] then Some (mk_fstat 33261 7 0 42, []) else None.
+Definition ex_io : list (str * fhash) := [ ([97;46;99], ex_old) ].
+Definition ex_oo : list (str * fhash) := [ ([111;117;116], fh_unknown) ].
+
+Example C13_example_skip :
+  match full_step_hash ex_H ex_sys_empty ex_disk ex_io ex_oo with
+  | Some (rec, rs) =>
+      sys_wf rs = true /\ sys_inputs_known rs = true
+      /\ digests_ok Lookahead (sys_outs rs) = true
+      /\ option_map fst (try_skip ex_H rec ex_sys_empty ex_disk ex_io ex_oo) = Some true
+      /\ option_map fst (try_skip ex_H rec ex_sys_unset ex_disk ex_io ex_oo) = Some false
+      /\ try_skip ex_H rec ex_sys_empty (fun _ => None) ex_io ex_oo = None
+  | None => False
+  end.
+Proof. vm_compute. repeat split; reflexivity. Qed.
+
+(* stored hashes: an explained step hash with a known input, an undefined and an empty variable,
+   an override and a missing output is well-formed for the round trip; the stored form of the
+   unknown digest is the two characters "bp" *)
+Definition ex_stephash : stephash :=
+  mk_sx ex_digest1
+        (Some (mk_ii [ ([97;46;99], ex_old) ] [ ([72;79;77;69], None); ([70], Some []) ] [ ([79], [52]) ]))
+        (Some ex_digest2)
+        (Some (mk_oi [ ([111;117;116], fh_unknown) ])).
+
+Example C13_example_json :
+  sx_json_ok ex_stephash = true /\ fh_json_ok ex_old = true /\ fh_canonical ex_old = true
+  /\ fh_canonical fh_unknown = true /\ fh_to_json fh_unknown = None
+  /\ b85_encode b85_alphabet unknown_digest = [98;112]
+  /\ sx_from_json (Some (sx_to_json ex_stephash)) = Some (Some ex_stephash)
+  /\ shash_of ex_stephash = mk_shash ex_digest1 (Some ex_digest2).
+Proof. vm_compute. repeat split; reflexivity. Qed.
